@@ -7,6 +7,7 @@
 (***************************************************************************)
 EXTENDS XLOps, XLText, XLAgg
 
+BN == INSTANCE BigNat
 ETruth(b) == [k |-> "truth", b |-> b]     \* TRUE/FALSE, or 1/0 (Python truth values)
 EAnyNum == [k |-> "anynum"]
 EAnyErr == EErrs(Codes)
@@ -84,8 +85,15 @@ Pred(f, v) ==
 
 (* parity of the integer part (truncation toward zero)                     *)
 TruncQ(q) == IF q.n >= 0 THEN q.n \div q.d ELSE -((-q.n) \div q.d)
+(* an exactly given float with a claimed integer part ip (of its magnitude): the claim is checked, ip*den <= num < (ip+1)*den *)
+FloatParity(f, v) ==
+  LET num == BN!BOfDigits(v.nd)
+      den == BN!BOfDigits(v.dd)
+      ok == v.ip >= 0 /\ v.ip < 100000 /\ BN!BLe(BN!BNorm(BN!BMulAdd(den, v.ip, 0)), num) /\ BN!BLt(num, BN!BMulAdd(den, v.ip + 1, 0))
+  IN IF ~ok THEN EAny ELSE ETruth(IF f = "ISODD" THEN v.ip % 2 = 1 ELSE v.ip % 2 = 0)
 Parity(f, v) ==
   IF IsErr(v) THEN EAny
+  ELSE IF v.t = "flt" /\ "ip" \in DOMAIN v /\ "nd" \in DOMAIN v THEN FloatParity(f, v)
   ELSE IF v.t # "num" THEN EAny
   ELSE LET odd == TruncQ(QOf(v)) % 2 = 1
        IN ETruth(IF f = "ISODD" THEN odd ELSE ~odd)
@@ -306,7 +314,6 @@ CriteriaExpect(f, args) ==
 NumberAlphabet == (48..57) \cup {43, 45, 46, 101, 69, 95, 32, 9, 10, 13}
 SurelyNotNumeric(s) == \/ \A i \in 1..Len(s) : s[i] \in {32, 9, 10, 13}
                        \/ \E i \in 1..Len(s) : s[i] \notin NumberAlphabet
-BN == INSTANCE BigNat
 (* a float given exactly, as sign and numerator / denominator digit strings (the recorder adds them): [k |-> "f", ...] *)
 MathArg(v) ==
   CASE v.t = "num" -> [k |-> "q", q |-> QOf(v)]
